@@ -11,12 +11,14 @@ import (
 	"fmt"
 	"os"
 	"path/filepath"
+	"regexp"
 	"strconv"
-	"strings"
 	"time"
 
 	"github.com/pointlander/peg/set"
 )
+
+var intRe = regexp.MustCompile(`-?\d+`)
 
 type op struct {
 	Op  string `json:"op"`
@@ -95,16 +97,15 @@ func run(h history) []stepObs {
 			})
 			ro.Str = []int{}
 			ro.StrPanic = guard(func() {
+				// the property fixes the content (the ascending element list), not the punctuation
 				str := s.String()
-				if strings.HasPrefix(str, "[") && strings.HasSuffix(str, "]") {
-					ro.StrOK = true
-					for _, f := range strings.Fields(str[1 : len(str)-1]) {
-						n, err := strconv.Atoi(f)
-						if err != nil {
-							ro.StrOK = false
-						}
-						ro.Str = append(ro.Str, n)
+				ro.StrOK = true
+				for _, f := range intRe.FindAllString(str, -1) {
+					n, err := strconv.Atoi(f)
+					if err != nil {
+						ro.StrOK = false
 					}
+					ro.Str = append(ro.Str, n)
 				}
 			})
 			st.Regs = append(st.Regs, ro)
